@@ -13,4 +13,5 @@ CONSTANTS
   BugCache = TRUE
   BugAccessorMutates = FALSE
   BugJsonAlias = FALSE
+  BugEntryPointWritesTables = FALSE
 CHECK_DEADLOCK FALSE
